@@ -2,6 +2,7 @@
 import itertools
 import struct
 
+import e2e_engine as E2E
 import gen_mapper as GM
 import pipeline_check as PC
 import pipeline_engine as PE
@@ -112,3 +113,8 @@ def run(rep, tier, seed, replay):
            "with the property's own reading (last sample + its ttl, strict comparison at the sweep, recreation from zero); non-trivial = history in which a sweep removed a series; "
            "distinct by operation sequence" % (len(exhaustive), depth), extra_cases=exhaustive)
     rep.cov["exhaustive"] = True
+    if not replay and len(rep.violations) < 5:
+        # real time in the built binary: the exporter's own once-a-second sweep, ttl 3 s, with and without a refreshing sample
+        E2E.run(rep, "C07", tier, seed, n_quick=8, n_thorough=96, gen=E2E.gen_ttl_case, key="e2e_ttl")
+        rep.cov["rule"] += ("; plus %d real-time end-to-end histories against the built binary (ttl 3 s on a rule or in the defaults, a refreshing sample or none, scrapes at 0 s, "
+                            "4.2 s and 7.2 s, with generous margins around the one-second sweep)" % rep.extra.get("e2e_ttl_cases", 0))
